@@ -130,6 +130,13 @@ func zzHandleIBTPStep(nStatus int, onlyRequests bool) {
 	from := "1356:chA:s1"
 	dk := zz.Choice("dst", len(zzDsts))
 	to := zzDsts[dk]
+	// a local destination service may be identified by a contract address, spelt as its owner
+	// registered it (mixed case): counters and records belong to the exact pair of id strings
+	dstSvc := "s2"
+	if dk == 0 && !onlyRequests && !w.audit && zz.Choice("dstIdIsAnAddress", 2) == 1 {
+		dstSvc = "0xAbCdEF0123456789aBcDeF0123456789ABcdef01"
+		to = "1356:chB:" + dstSvc
+	}
 	c := zz.U64("c")
 	r := zz.U64("r")
 	zz.Assume(r <= c)
@@ -147,7 +154,7 @@ func zzHandleIBTPStep(nStatus int, onlyRequests bool) {
 	// services: source always registered with arbitrary status; local destination registered or not
 	ic.services["chA:s1"] = zzService("chA", "s1", "src", nStatus, "")
 	if dk == 0 && zz.Choice("dstRegistered", 2) == 1 {
-		ic.services["chB:s2"] = zzService("chB", "s2", "dstsvc", nStatus, from)
+		ic.services["chB:"+dstSvc] = zzService("chB", dstSvc, "dstsvc", nStatus, from)
 	}
 	// interchain records
 	icF := &pb.Interchain{ID: from, InterchainCounter: map[string]uint64{to: c}, ReceiptCounter: map[string]uint64{to: r},
@@ -247,7 +254,7 @@ func zzHandleIBTPStep(nStatus int, onlyRequests bool) {
 			_, has := evs[0][want]
 			zz.Assert("C02.delivered-to-dst", has && len(evs[0]) == 1)
 			if dk == 0 {
-				s := ic.services["chB:s2"]
+				s := ic.services["chB:"+dstSvc]
 				zz.Assert("C16.dst-gate", s != nil && (s.Status == governance.GovernanceAvailable || s.Status == governance.GovernanceFreezing) && len(s.Permission) == 0)
 			}
 		} else {
@@ -269,7 +276,7 @@ func zzHandleIBTPStep(nStatus int, onlyRequests bool) {
 		}
 		if rec.Status != pb.TransactionStatus_BEGIN && dk == 0 {
 			// begin_failure: the local destination really was unusable
-			s := ic.services["chB:s2"]
+			s := ic.services["chB:"+dstSvc]
 			zz.Assert("C16.begin-failure-only-if-dst-unusable", s == nil || !(s.Status == governance.GovernanceAvailable || s.Status == governance.GovernanceFreezing) || len(s.Permission) != 0)
 			zz.Assert("C16.begin-failure-reported", string(res.Result) == "begin_failure")
 		}
